@@ -545,3 +545,16 @@ def barrier_me(local, sc, cfg, hev, wire):
                                         "what": f"label '{line}' -> {o} at {ev!r}",
                                         "case": {"scenario": sc.to_json(), "config": cfg.to_json()}})
             return
+        if line.startswith("exit "):
+            # C02ME_rounds_after_quiescence on the real history: rounds posted beyond the first quiescent state of this barrier
+            if "after=" in o:
+                a = int(o.split("after=")[1].split()[0])
+                local.count(f"barrier exits: {a} rounds after the first quiescent state")
+                if a > 2:
+                    local.corr_failures.append({"relation": "C02ME_rounds_after_quiescence on the real history (a rank leaves within two rounds of quiescence)",
+                                                "what": f"label '{line}' -> {o} at {ev!r}", "case": {"scenario": sc.to_json(), "config": cfg.to_json()}})
+                    return
+            else:
+                local.corr_failures.append({"relation": "C02ME_exit_implies_quiescent on the real history (a quiescent state of this barrier was seen before the exit)",
+                                            "what": f"label '{line}' -> {o} at {ev!r}", "case": {"scenario": sc.to_json(), "config": cfg.to_json()}})
+                return
